@@ -57,6 +57,16 @@ def gen(args):
             # every recomputation, so the chain still equals the cold fit
             B1 = np.array([[2, 1, 0], [0, 1, 2]]); B2 = np.array([[1, 2, 0], [1, 0, 2]])
             A = np.block([[B1, np.zeros((2, 3), int)], [np.zeros((2, 3), int), B2]]).T * int(rng.integers(1, 4))
+            if (di // 3 + vi) % 2 == 0:
+                # three blocks of equal strength: the leading singular value is STILL degenerate after the first selection has
+                # weakened one block, i.e. at a decision that a warm-started chain and the cold fit reach by different numbers
+                # of score recomputations
+                Z = np.zeros((2, 2), int)
+                # (blocks without a symmetry of their own - the two items of a block must not tie -, equal up to a swap of
+                # rows and a sign, hence with the same singular values)
+                B0 = np.array([[2, 1], [0, 1]])
+                Bs = [B0, B0[::-1], B0 * np.array([1, -1])]
+                A = np.block([[Bs[0], Z, Z], [Z, Bs[1], Z], [Z, Z, Bs[2]]]) * int(rng.integers(1, 4))
             A = A[rng.permutation(6)]
         X = (A if axis == 0 else A.T).astype(float)
         if name == "VoronoiFPS" and di % 2 == 1:
